@@ -16,10 +16,17 @@
 //!    `save_dict` under `strace`: the `write` syscalls' sizes vs the model's).
 //! O: the property on the real code (see `rule` at the bottom).
 //!
-//! The language-server command path itself (`workspace/executeCommand HarperAddToUserDict`) is left as
-//! `server_scenarios` (TODO); the handler's steps `load_dict → append_word → save_dict →
+//! Server path (`server_scenarios`): `workspace/executeCommand` `HarperAddToUserDict` /
+//! `HarperAddToFileDict` through the REAL `Backend` served in-process (lsclient.rs): the LAST
+//! publication for the command's document is compared with a brand-new `DocumentState` under the
+//! dictionaries now on disk (so a linter that was not rebuilt shows), the other document is updated
+//! and compared, a second server (restart) re-opens the documents. Probe words are chosen to collide
+//! under naive dictionary fingerprints (even multiplicities, anagrams, concatenations, splits).
+//! The rebuild decision itself (`MergedDictionary ==`) is compared with the model (`dfp`) and judged
+//! on pairs of different word sets (`fingerprint_streams`).
+//! The direct path (`run_history`) performs the handler's steps `load_dict → append_word → save_dict →
 //! update_document_from_file (= reload all dictionaries, rebuild the linter if the merged dictionary
-//! differs)` are performed here directly, in that order, with the same functions.
+//! differs)` itself, in that order, with the same functions.
 use crate::common::*;
 use crate::dictionary_io::{file_dict_name, load_dict, save_dict};
 use harper_core::linting::{Lint, LintGroup, LintKind, Linter};
@@ -32,6 +39,7 @@ use std::collections::{BTreeMap, BTreeSet, HashMap};
 use std::path::{Path, PathBuf};
 use std::sync::Arc;
 use tower_lsp::lsp_types::Url;
+use crate::lsclient::LsSession;
 
 /// documents of the scenarios; the last two have different paths but the same `file_dict_name`
 const URLS: [&str; 4] = ["file:///w11/doc0.md", "file:///w11/doc1.md", "file:///w11/a/b.md", "file:///w11/a%25b.md"];
@@ -382,6 +390,35 @@ fn class_flagged_present(led: &Ledger, w: &str, dialect: Dialect, js: bool) -> &
     }
 }
 
+/// the `dio` line of a history (see lean/Harper/Driver/DictIO.lean) and the implementation's answer
+fn build_dio_line(env: &Env, salt: usize, chars: &mut BTreeSet<char>, keys: &BTreeSet<String>, dialect: Dialect, disk0: &str, op_txt: &[String], res_txt: &[String]) -> (String, String) {
+    let mut cur: Vec<Vec<char>> = vec![];
+    for k in keys {
+        if let Some(v) = env.by_key.get(k) {
+            cur.extend(v.iter().cloned());
+        }
+    }
+    // two decoys
+    cur.push(env.all[(salt * 7919) % env.all.len()].clone());
+    cur.push(env.all[(salt * 104729 + 13) % env.all.len()].clone());
+    cur.sort();
+    cur.dedup();
+    let curated = FstDictionary::curated();
+    let cur_txt = cur
+        .iter()
+        .map(|c| {
+            chars.extend(c.iter());
+            let ok = curated.get_word_metadata(c).map(|m| m.dialect.is_none_or(|d| d == dialect)).unwrap_or(false);
+            format!("{} {}", ok as u8, chars_field(c))
+        })
+        .collect::<Vec<_>>()
+        .join(" ; ");
+    let tab = chars.iter().map(|c| tab_row(*c)).collect::<Vec<_>>().join(" ; ");
+    let line = format!("dio {} | {} | {} | {}", tab, cur_txt, disk0, op_txt.join(" ; "));
+    let imp = format!("ok {}", res_txt.join(" ; ")).trim_end().to_string();
+    (line, imp)
+}
+
 fn run_history(env: &Env, hist: &Hist, id: usize) -> Outcome {
     let mut out = Outcome::default();
     let input = hist.to_json();
@@ -702,31 +739,7 @@ fn run_history_inner(env: &Env, hist: &Hist, id: usize, input: &Value) -> Outcom
         }
     }
     // ---- the K line ------------------------------------------------------------------------------
-    let mut cur: Vec<Vec<char>> = vec![];
-    for k in &keys {
-        if let Some(v) = env.by_key.get(k) {
-            cur.extend(v.iter().cloned());
-        }
-    }
-    // two decoys
-    cur.push(env.all[(id * 7919) % env.all.len()].clone());
-    cur.push(env.all[(id * 104729 + 13) % env.all.len()].clone());
-    cur.sort();
-    cur.dedup();
-    let curated = FstDictionary::curated();
-    let cur_txt = cur
-        .iter()
-        .map(|c| {
-            chars.extend(c.iter());
-            let ok = curated.get_word_metadata(c).map(|m| m.dialect.is_none_or(|d| d == dialect)).unwrap_or(false);
-            format!("{} {}", ok as u8, chars_field(c))
-        })
-        .collect::<Vec<_>>()
-        .join(" ; ");
-    let tab = chars.iter().map(|c| tab_row(*c)).collect::<Vec<_>>().join(" ; ");
-    let line = format!("dio {} | {} | {} | {}", tab, cur_txt, disk0, op_txt.join(" ; "));
-    let imp = format!("ok {}", res_txt.join(" ; ")).trim_end().to_string();
-    out.k.push((line, imp));
+    out.k.push(build_dio_line(env, id, &mut chars, &keys, dialect, &disk0, &op_txt, &res_txt));
     // monitors of the model's parameters: lower / normalize act character by character
     for c in &chars {
         let one = [*c];
@@ -748,7 +761,8 @@ fn run_history_inner(env: &Env, hist: &Hist, id: usize, input: &Value) -> Outcom
 // generators
 // ---------------------------------------------------------------------------------------------
 
-const BASE: [&str; 8] = ["zqxv", "qxzv", "vkqz", "xqzk", "zqxvw", "kvxq", "qzxk", "wqxz"];
+// the last three: every character an even number of times (invisible to an XOR fingerprint)
+const BASE: [&str; 11] = ["zqxv", "qxzv", "vkqz", "xqzk", "zqxvw", "kvxq", "qzxk", "wqxz", "zqzq", "xkkx", "vvqqvv"];
 const FOREIGN_DIALECT: [&str; 4] = ["colour", "realise", "centre", "honour"];
 const LISTED: [&str; 3] = ["house", "Paris", "banana"];
 const JUNK: [&str; 7] = ["zqxv ", "zqxv\r", "zq\nxv", "", " ", "\tzq", "zq\r\nxv"];
@@ -989,7 +1003,7 @@ fn lint_sig(l: &Lint) -> String {
     format!("{}:{}:{:?}:{}:{:?}", l.span.start, l.span.end, l.lint_kind, l.message, l.suggestions)
 }
 
-fn full_lints(user: &[&str], text: &str, dialect: Dialect) -> Result<(Vec<String>, Vec<(usize, usize)>), String> {
+fn full_lints(user: &[&str], text: &str, dialect: Dialect) -> Result<(Vec<Lint>, Vec<(usize, usize)>), String> {
     let mut d = MutableDictionary::new();
     for w in user {
         d.append_word(cs(w), WordMetadata::default());
@@ -1003,29 +1017,71 @@ fn full_lints(user: &[&str], text: &str, dialect: Dialect) -> Result<(Vec<String
         lg.config.fill_with_curated();
         let doc = Document::new(text, &PlainEnglish, &m);
         let lints = lg.lint(&doc);
-        let other: Vec<String> = lints.iter().filter(|l| l.lint_kind != LintKind::Spelling).map(lint_sig).collect();
         let spell: Vec<(usize, usize)> = lints.iter().filter(|l| l.lint_kind == LintKind::Spelling).map(|l| (l.span.start, l.span.end)).collect();
+        let other: Vec<Lint> = lints.into_iter().filter(|l| l.lint_kind != LintKind::Spelling).collect();
         (other, spell)
+    })
+}
+
+/// Recorded finding `c07-capitalization-consults-dictionary`: the lint is SentenceCapitalization's, on
+/// the first letter of an occurrence of the added word, it DISAPPEARS with the add, and the added
+/// word has an upper-case letter after its first character (the rule skips a sentence-initial word
+/// whose dictionary spelling is mixed-case, like `iPhone`).
+fn cap_rule_case(l: &Lint, gone: bool, w: &[char], text: &[char]) -> bool {
+    gone && l.lint_kind == LintKind::Capitalization
+        && l.message == "This sentence does not start with a capital letter"
+        && l.span.len() == 1
+        && l.span.start + w.len() <= text.len()
+        && lownorm(&text[l.span.start..l.span.start + w.len()]) == lownorm(w)
+        && w.iter().skip(1).take_while(|c| !c.is_whitespace() && **c != '-' && **c != '\'').any(|c| c.is_uppercase())
+}
+
+/// Recorded finding `c07-oxford-comma-reads-word-metadata`: the lint is OxfordComma's and lies in a
+/// sentence that contains an occurrence of the added word (the rule looks at the first two words of
+/// the sentence THAT HAVE METADATA; an unknown word has none, an added word has).
+fn oxford_rule_case(l: &Lint, w: &[char], text: &str) -> bool {
+    if l.message != "An Oxford comma is necessary here." {
+        return false;
+    }
+    let dict = FstDictionary::curated();
+    let doc = Document::new(text, &PlainEnglish, &dict);
+    let key = lownorm(w);
+    use harper_core::TokenStringExt;
+    doc.iter_sentences().any(|sent| {
+        let (Some(a), Some(b)) = (sent.first(), sent.last()) else { return false };
+        a.span.start <= l.span.start && l.span.end <= b.span.end
+            && sent.iter().any(|t| matches!(t.kind, TokenKind::Word(_)) && lownorm(doc.get_span_content(&t.span)) == key)
     })
 }
 
 fn other_lints_case(sess: &mut Session, w: &str, text: &str) {
     sess.o();
     let input = json!({"stream": "other-lints", "w": w, "text": text});
-    let (Ok((o0, s0)), Ok((o1, s1))) = (full_lints(&[], text, Dialect::American), full_lints(&[w], text, Dialect::American)) else {
+    let (Ok((l0, s0)), Ok((l1, s1))) = (full_lints(&[], text, Dialect::American), full_lints(&[w], text, Dialect::American)) else {
         sess.count("other-lints:panicked (C01's business)");
         return;
     };
+    let o0: Vec<String> = l0.iter().map(lint_sig).collect();
+    let o1: Vec<String> = l1.iter().map(lint_sig).collect();
     let held = o0 == o1;
-    sess.monitor("non-spelling rules do not read the user dictionary (C11 independence): all non-spelling lints equal before/after the add", held);
+    let tc: Vec<char> = text.chars().collect();
+    let wc = cs(w);
     if !held {
-        let d0: Vec<&String> = o0.iter().filter(|x| !o1.contains(x)).collect();
-        let d1: Vec<&String> = o1.iter().filter(|x| !o0.contains(x)).collect();
-        sess.fail("other-lints-changed", format!("adding `{}` changed non-spelling lints of {:?}: gone {:?}, new {:?}", w, trunc(text, 120), d0, d1), input, None);
+        let gone: Vec<&Lint> = l0.iter().filter(|x| !o1.contains(&lint_sig(x))).collect();
+        let new: Vec<&Lint> = l1.iter().filter(|x| !o0.contains(&lint_sig(x))).collect();
+        let class = if new.is_empty() && gone.iter().all(|l| cap_rule_case(l, true, &wc, &tc)) {
+            "c07-capitalization-consults-dictionary"
+        } else if gone.iter().chain(new.iter()).all(|l| oxford_rule_case(l, &wc, text)) {
+            "c07-oxford-comma-reads-word-metadata"
+        } else {
+            "other-lints-changed"
+        };
+        sess.monitor("non-spelling rules do not read the user dictionary (C11 independence): all non-spelling lints equal before/after the add, the two recorded rules (SentenceCapitalization on a mixed-case word, OxfordComma) excepted", class != "other-lints-changed");
+        sess.fail(class, format!("adding `{}` changed non-spelling lints of {:?}: gone {:?}, new {:?}", w, trunc(text, 160), gone.iter().map(|l| lint_sig(l)).collect::<Vec<_>>(), new.iter().map(|l| lint_sig(l)).collect::<Vec<_>>()), input, None);
         return;
     }
+    sess.monitor("non-spelling rules do not read the user dictionary (C11 independence): all non-spelling lints equal before/after the add, the two recorded rules (SentenceCapitalization on a mixed-case word, OxfordComma) excepted", true);
     // the spelling lints that went away are lints on occurrences of `w` (in some capitalisation)
-    let tc: Vec<char> = text.chars().collect();
     let key = lownorm_s(w);
     for sp in &s0 {
         if !s1.contains(sp) && lownorm(&tc[sp.0..sp.1]) != key {
@@ -1041,17 +1097,585 @@ fn other_lints_case(sess: &mut Session, w: &str, text: &str) {
 }
 
 // ---------------------------------------------------------------------------------------------
-// server path — to be filled in once harness/src/lsclient.rs exists
+// the rebuild decision: real `MergedDictionary` equality
 // ---------------------------------------------------------------------------------------------
 
-/// TODO(server path): issue `workspace/executeCommand` `HarperAddToUserDict` / `HarperAddToFileDict`
-/// through the in-process language server (`lsclient`) for each history below and compare the
-/// published diagnostics with what `run_history` computes by calling the handler's steps directly
-/// (`load_dict → append_word → save_dict → update_document_from_file`). Expected to be called from
-/// `run` with the corpus histories; it must push failures with the same classes (`classify` logic in
-/// `run_history_inner`) and count its cases with `sess.o()`.
-pub fn server_scenarios(_sess: &mut Session, _root: &Path, _histories: &[Value]) {
-    // TODO(server path)
+/// [curated, user, file] the way `generate_file_dictionary` builds it, plus the `words_iter` order of
+/// the two mutable children (what `hash_dictionary` is fed)
+fn merged_with_orders(user: &[String], file: &[String]) -> (MergedDictionary, Vec<Vec<char>>, Vec<Vec<char>>) {
+    let mk = |ws: &[String]| {
+        let mut d = MutableDictionary::new();
+        for w in ws {
+            d.append_word(cs(w), WordMetadata::default());
+        }
+        let it: Vec<Vec<char>> = d.words_iter().map(|w| w.to_vec()).collect();
+        (Arc::new(d), it)
+    };
+    let (u, uit) = mk(user);
+    let (f, fit) = mk(file);
+    let mut m = MergedDictionary::new();
+    m.add_dictionary(FstDictionary::curated());
+    m.add_dictionary(u);
+    m.add_dictionary(f);
+    (m, uit, fit)
+}
+
+fn word_set(ws: &[String]) -> BTreeSet<Vec<char>> {
+    // the dictionary a word list builds: later spellings replace earlier ones with the same key
+    let mut d = MutableDictionary::new();
+    for w in ws {
+        d.append_word(cs(w), WordMetadata::default());
+    }
+    d.words_iter().map(|w| w.to_vec()).collect()
+}
+
+/// one comparison of two merged dictionaries: K (`dfp`, the model is given the real iteration
+/// orders, so the answer must agree in BOTH directions) and O (different word sets must compare
+/// unequal). Returns true when the real `==` said "equal" although the word sets differ.
+fn fingerprint_case(sess: &mut Session, a: (&[String], &[String]), b: (&[String], &[String]), origin: &str) -> bool {
+    let (ma, ua, fa) = merged_with_orders(a.0, a.1);
+    let (mb, ub, fb) = merged_with_orders(b.0, b.1);
+    let real_eq = ma == mb;
+    let op = format!("dfp {} , {} | {} , {}", list_tokens(&ua), list_tokens(&fa), list_tokens(&ub), list_tokens(&fb));
+    let op = op.split_whitespace().collect::<Vec<_>>().join(" ");
+    sess.k(&op, &format!("ok {}", real_eq as u8));
+    sess.o();
+    sess.count(&format!("fingerprint:{}", origin));
+    let same_sets = word_set(a.0) == word_set(b.0) && word_set(a.1) == word_set(b.1);
+    if same_sets {
+        sess.count(if real_eq { "fingerprint:same-words-equal" } else { "fingerprint:same-words-unequal (order-sensitive hash; harmless: a spurious rebuild)" });
+        return false;
+    }
+    if !real_eq {
+        sess.count("fingerprint:different-words-unequal");
+        return false;
+    }
+    let stream = |it: &Vec<Vec<char>>| -> Vec<char> { it.iter().flatten().copied().collect() };
+    let input = json!({"stream": "fingerprint", "a": {"user": a.0, "file": a.1}, "b": {"user": b.0, "file": b.1},
+        "orders": {"a_user": ua.iter().map(|w| st(w)).collect::<Vec<_>>(), "b_user": ub.iter().map(|w| st(w)).collect::<Vec<_>>(), "a_file": fa.iter().map(|w| st(w)).collect::<Vec<_>>(), "b_file": fb.iter().map(|w| st(w)).collect::<Vec<_>>()}});
+    let class = if stream(&ua) == stream(&ub) && stream(&fa) == stream(&fb) { "c07-dict-eq-no-word-boundaries" } else { "dict-eq-misses-change" };
+    sess.fail(class, format!("MergedDictionary [curated, {:?}, {:?}] == [curated, {:?}, {:?}] although the word sets differ (words_iter orders {:?}/{:?} vs {:?}/{:?}): update_document would keep the old dictionary and linter", a.0, a.1, b.0, b.1, ua.iter().map(|w| st(w)).collect::<Vec<_>>(), fa.iter().map(|w| st(w)).collect::<Vec<_>>(), ub.iter().map(|w| st(w)).collect::<Vec<_>>(), fb.iter().map(|w| st(w)).collect::<Vec<_>>()), input, None);
+    true
+}
+
+/// a nonsense word in which every character occurs an even number of times
+fn even_word(rng: &mut Rng) -> String {
+    let letters = ['z', 'q', 'x', 'k', 'v', 'j', 'w', 'ñ'];
+    loop {
+        let a = *rng.pick(&letters);
+        let b = *rng.pick(&letters);
+        let c = *rng.pick(&letters);
+        let w: String = match rng.below(5) {
+            0 => [a, b, a, b].iter().collect(),
+            1 => [a, b, b, a].iter().collect(),
+            2 => [a, a, b, b, c, c].iter().collect(),
+            3 => [a, b, c, a, b, c].iter().collect(),
+            _ => [a, b, c, c, b, a].iter().collect(),
+        };
+        if a != b && !FstDictionary::curated().contains_word(&cs(&w)) {
+            return w;
+        }
+    }
+}
+
+/// words chosen to collide under naive fingerprints, relative to the words already picked
+fn hostile_word(rng: &mut Rng, prev: &[String]) -> String {
+    let nonsense = |rng: &mut Rng| format!("{}{}", rng.pick(&BASE[..8]), (b'a' + rng.below(26) as u8) as char);
+    if prev.is_empty() {
+        return if rng.chance(1, 2) { even_word(rng) } else { nonsense(rng) };
+    }
+    let p = rng.pick(prev).clone();
+    let pc = cs(&p);
+    match rng.below(10) {
+        0..=2 => even_word(rng),
+        3 => {
+            // anagram of an earlier word
+            let mut c = pc.clone();
+            c.rotate_left(1);
+            if rng.chance(1, 2) { c.reverse(); }
+            if c == pc { nonsense(rng) } else { st(&c) }
+        }
+        4 => format!("{}{}", p, rng.pick(prev)), // concatenation of two earlier words
+        5 if pc.len() >= 4 => st(&pc[..pc.len() / 2]), // split of an earlier word …
+        6 if pc.len() >= 4 => st(&pc[pc.len() / 2..]), // … other half
+        7 if rng.chance(1, 3) => { let mut c = pc.clone(); c[0] = c[0].to_uppercase().next().unwrap(); st(&c) } // case variant
+        _ => nonsense(rng),
+    }
+}
+
+fn fingerprint_streams(sess: &mut Session, rng: &mut Rng, thorough: bool) {
+    let s = |v: &[&str]| v.iter().map(|x| x.to_string()).collect::<Vec<String>>();
+    // corpus: the word-boundary witness (order-dependent: retried until the orders line up) and the
+    // even-multiplicity witness of the seeded XOR change
+    let mut hit = false;
+    for _ in 0..64 {
+        if fingerprint_case(sess, (&s(&["ab", "c"]), &[]), (&s(&["a", "bc"]), &[]), "corpus") {
+            hit = true;
+            break;
+        }
+    }
+    sess.add("fingerprint:word-boundary witness exhibited", hit as u64);
+    fingerprint_case(sess, (&s(&["zqxv"]), &[]), (&s(&["zqxv", "xoxo"]), &[]), "corpus");
+    fingerprint_case(sess, (&[], &s(&["zqxv"])), (&[], &s(&["zqxv", "ñoño"])), "corpus");
+    fingerprint_case(sess, (&s(&["zqxv", "qxzv"]), &[]), (&s(&["zqxv", "qxzv", "kuku"]), &s(&["mama"])), "corpus");
+    // exhaustive: all pairs of word lists of ≤3 words over the pool, in the user child; ≤2 in the file child
+    let pool = ["a", "b", "ab", "ba", "aa", "abab", "xoxo"];
+    let mut sets: Vec<Vec<String>> = vec![];
+    for mask in 0u32..128 {
+        if mask.count_ones() <= 3 {
+            sets.push((0..7).filter(|i| mask >> i & 1 == 1).map(|i| pool[i].to_string()).collect());
+        }
+    }
+    for a in &sets {
+        for b in &sets {
+            fingerprint_case(sess, (a, &[]), (b, &[]), "exhaustive-user-child");
+        }
+    }
+    let small: Vec<&Vec<String>> = sets.iter().filter(|x| x.len() <= 2).collect();
+    for a in &small {
+        for b in &small {
+            fingerprint_case(sess, (&s(&["ab"]), a), (&s(&["ab"]), b), "exhaustive-file-child");
+        }
+    }
+    // random: an add (B = A + one hostile word), a replacement, or two unrelated hostile lists
+    let n = if thorough { 12000 } else { 2500 };
+    for _ in 0..n {
+        let mut a: Vec<String> = vec![];
+        for _ in 0..rng.below(5) {
+            let w = hostile_word(rng, &a);
+            a.push(w);
+        }
+        let mut b = a.clone();
+        match rng.below(4) {
+            0 | 1 => { let w = hostile_word(rng, &b); b.push(w); }
+            2 => { b.clear(); for _ in 0..rng.range(1, 4) { let w = hostile_word(rng, &a); b.push(w); } }
+            _ => { if !b.is_empty() { let i = rng.below(b.len()); b[i] = hostile_word(rng, &a); } else { b.push(even_word(rng)); } }
+        }
+        if rng.chance(1, 4) {
+            fingerprint_case(sess, (&s(&["zqxv"]), &a), (&s(&["zqxv"]), &b), "random-file-child");
+        } else {
+            fingerprint_case(sess, (&a, &[]), (&b, &[]), "random-user-child");
+        }
+    }
+}
+
+// ---------------------------------------------------------------------------------------------
+// server path: the real `execute_command` through the in-process language server (lsclient.rs)
+// ---------------------------------------------------------------------------------------------
+
+#[derive(Clone, Debug)]
+struct SrvAdd {
+    file: bool,
+    doc: usize,
+    w: String,
+}
+/// one server scenario: 1–2 plain-text documents `We saw <probe> today.` (one line per probe word),
+/// 1–4 add commands, then a restart
+#[derive(Clone, Debug)]
+struct SrvScenario {
+    docs: usize,
+    adds: Vec<SrvAdd>,
+    /// probe words that are never added (must stay reported)
+    extra: Vec<String>,
+}
+impl SrvScenario {
+    fn probes(&self) -> Vec<String> {
+        let mut p: Vec<String> = vec![];
+        for w in self.adds.iter().map(|a| &a.w).chain(self.extra.iter()) {
+            if !p.contains(w) {
+                p.push(w.clone());
+            }
+        }
+        p
+    }
+    fn text(&self) -> String {
+        self.probes().iter().map(|w| format!("{}\n", template(w))).collect()
+    }
+    fn to_json(&self) -> Value {
+        json!({"stream": "server", "docs": self.docs, "never_added": self.extra,
+            "document_text": self.text(),
+            "commands": self.adds.iter().map(|a| json!({"command": if a.file { "HarperAddToFileDict" } else { "HarperAddToUserDict" }, "doc": a.doc, "word": a.w})).collect::<Vec<_>>()})
+    }
+    fn from_json(v: &Value) -> Option<SrvScenario> {
+        let adds = v["commands"].as_array()?.iter().map(|c| SrvAdd { file: c["command"] == "HarperAddToFileDict", doc: c["doc"].as_u64().unwrap_or(0) as usize, w: c["word"].as_str().unwrap_or("").to_string() }).collect();
+        Some(SrvScenario { docs: v["docs"].as_u64().unwrap_or(1).clamp(1, 2) as usize, adds, extra: v["never_added"].as_array().map(|a| a.iter().filter_map(|x| x.as_str().map(|s| s.to_string())).collect()).unwrap_or_default() })
+    }
+}
+
+fn srv_cfg(sdir: &Path) -> Value {
+    json!({"harper-ls": {
+        "userDictPath": sdir.join("dictionary.txt").to_string_lossy(),
+        "fileDictPath": sdir.join("file_dictionaries").to_string_lossy(),
+    }})
+}
+
+fn diag_strings(v: &Value) -> Vec<String> {
+    let mut d: Vec<String> = v.as_array().map(|a| a.iter().map(|x| x.to_string()).collect()).unwrap_or_default();
+    d.sort();
+    d
+}
+
+/// is the probe on line `line` covered by a published diagnostic?
+fn line_flagged(diags: &Value, line: usize) -> bool {
+    diags.as_array().is_some_and(|a| {
+        a.iter().any(|d| {
+            d["range"]["start"]["line"].as_u64() == Some(line as u64) && d["range"]["start"]["character"].as_u64().unwrap_or(0) <= TEMPLATE_AT as u64 && d["range"]["end"]["character"].as_u64().unwrap_or(0) > TEMPLATE_AT as u64
+        })
+    })
+}
+
+struct SrvCtx<'a> {
+    env: &'a Env,
+    rt: &'a tokio::runtime::Runtime,
+}
+
+impl<'a> SrvCtx<'a> {
+    fn load_or_empty(&self, p: &Path) -> MutableDictionary {
+        self.rt.block_on(load_dict(p)).unwrap_or(MutableDictionary::new())
+    }
+    fn file_dict_path(&self, sdir: &Path, uri: &str) -> PathBuf {
+        sdir.join("file_dictionaries").join(file_dict_name(&Url::parse(uri).unwrap()).unwrap())
+    }
+    /// what a brand-new document state gives for `text` under the dictionaries NOW on disk: the
+    /// server's own `DocumentState::generate_diagnostics`, with a dictionary and linter built from scratch
+    fn fresh(&self, sdir: &Path, uri: &str, text: &str) -> Value {
+        let mut m = MergedDictionary::new();
+        m.add_dictionary(FstDictionary::curated());
+        m.add_dictionary(Arc::new(self.load_or_empty(&sdir.join("dictionary.txt"))));
+        m.add_dictionary(Arc::new(self.load_or_empty(&self.file_dict_path(sdir, uri))));
+        let dict = Arc::new(m);
+        let cfg = crate::config::Config::default();
+        let mut ds = crate::document_state::DocumentState {
+            document: Document::new(text, &PlainEnglish, &dict),
+            dict: dict.clone(),
+            linter: LintGroup::new_curated(dict.clone(), cfg.dialect).with_lint_config(cfg.lint_config.clone()),
+            ..Default::default()
+        };
+        serde_json::to_value(ds.generate_diagnostics(cfg.diagnostic_severity)).unwrap()
+    }
+}
+
+#[derive(Default)]
+struct SrvOut {
+    fails: Vec<(String, String)>,
+    counts: Vec<String>,
+    o_cases: usize,
+    k: Option<(String, String)>,
+}
+
+/// compare the last publication for `uri` with a fresh lint and judge every added word
+#[allow(clippy::too_many_arguments)]
+fn srv_judge(cx: &SrvCtx, ls: &LsSession, out: &mut SrvOut, sdir: &Path, sc: &SrvScenario, uri: &str, doc: usize, upto: usize, user: &Ledger, files: &BTreeMap<usize, Ledger>, when: &str) -> Option<Value> {
+    let text = sc.text();
+    let probes = sc.probes();
+    let Some(published) = ls.last_publication(uri).cloned() else {
+        out.fails.push(("server-no-publication".into(), format!("{}: no diagnostics were ever published for document {}", when, doc)));
+        return None;
+    };
+    let fresh = cx.fresh(sdir, uri, &text);
+    out.o_cases += 1;
+    let same = diag_strings(&published) == diag_strings(&fresh);
+    for (ai, a) in sc.adds.iter().enumerate().take(upto) {
+        let line = probes.iter().position(|p| *p == a.w).unwrap();
+        let applies = !a.file || a.doc == doc;
+        if !applies {
+            // a file-dictionary word of the OTHER document must stay reported here (unless it is also
+            // in the user dictionary or this document's own file dictionary)
+            let also = sc.adds.iter().take(upto).any(|b| b.w == a.w && (!b.file || b.doc == doc));
+            if !also && !FstDictionary::curated().contains_word(&cs(&a.w)) {
+                out.o_cases += 1;
+                if !line_flagged(&published, line) {
+                    out.fails.push(("file-word-leaks".into(), format!("{}: `{}` was added to the file dictionary of document {} only, but document {} no longer reports it", when, a.w, a.doc, doc)));
+                } else {
+                    out.counts.push("srv:file-word-still-reported-in-other-document".into());
+                }
+            }
+            continue;
+        }
+        out.o_cases += 1;
+        if !line_flagged(&published, line) {
+            out.counts.push(format!("srv:added-word-accepted ({})", when.split(' ').next().unwrap_or("")));
+            continue;
+        }
+        let class = if !line_flagged(&fresh, line) {
+            // the dictionary on disk accepts the word, the open document still reports it
+            "server-stale-linter"
+        } else {
+            let (led, path) = if a.file { (files.get(&a.doc).unwrap(), cx.file_dict_path(sdir, uri)) } else { (user, sdir.join("dictionary.txt")) };
+            let present = cx.load_or_empty(&path).words_iter().any(|x| x == cs(&a.w).as_slice());
+            if present { class_flagged_present(led, &a.w, Dialect::American, false) } else { led.class_lost(&a.w, ai + 1) }
+        };
+        out.fails.push((class.into(), format!("{}: `{}` ({} #{}) is still reported in the last publication for document {}; a fresh lint under the dictionaries on disk {} it", when, a.w, if a.file { "HarperAddToFileDict" } else { "HarperAddToUserDict" }, ai + 1, doc, if line_flagged(&fresh, line) { "also reports" } else { "accepts" })));
+    }
+    if !same && !out.fails.iter().any(|f| f.0 == "server-stale-linter") {
+        out.fails.push(("server-diagnostics-differ".into(), format!("{}: the last publication for document {} differs from a fresh lint under the dictionaries on disk: published {} vs fresh {}", when, doc, trunc(&published.to_string(), 300), trunc(&fresh.to_string(), 300))));
+    } else if same {
+        out.counts.push("srv:publication-equals-fresh-lint".into());
+    }
+    Some(published)
+}
+
+fn srv_uris(sdir: &Path, docs: usize) -> Vec<String> {
+    (0..docs).map(|d| crate::lsclient::file_url(&sdir.join(format!("doc{}.txt", d)))).collect()
+}
+
+/// phase 1: open the documents, run the commands (each followed by an update of the other
+/// document), judging after every step
+fn srv_commands(cx: &SrvCtx, ls: &mut LsSession, sdir: &Path, sc: &SrvScenario, salt: usize) -> Result<SrvOut, crate::lsclient::LsError> {
+    use crate::lsclient::{did_change, did_open};
+    let mut out = SrvOut::default();
+    let cfg = srv_cfg(sdir);
+    let text = sc.text();
+    let probes = sc.probes();
+    std::fs::create_dir_all(sdir).unwrap();
+    let uris = srv_uris(sdir, sc.docs);
+    for d in 0..sc.docs {
+        // `update_document_from_file` re-reads the document from disk
+        std::fs::write(sdir.join(format!("doc{}.txt", d)), &text).unwrap();
+        ls.notify("textDocument/didOpen", did_open(&uris[d], "plaintext", &text))?;
+        ls.quiesce(&cfg)?;
+    }
+    let mut user = Ledger::default();
+    let mut files: BTreeMap<usize, Ledger> = BTreeMap::new();
+    let mut version = 1i64;
+    let mut chars: BTreeSet<char> = BTreeSet::new();
+    let mut keys: BTreeSet<String> = BTreeSet::new();
+    let mut op_txt: Vec<String> = vec![];
+    let mut res_txt: Vec<String> = vec![];
+    for p in &probes {
+        chars.extend(p.chars());
+        keys.insert(lownorm_s(p));
+        keys.insert(lownorm(&cs(p).to_lower()));
+    }
+    let one_tok: Vec<bool> = probes.iter().map(|p| one_token(&Document::new(&template(p), &PlainEnglish, &FstDictionary::curated()), p.chars().count())).collect();
+    let bits = |published: &Value| -> String {
+        let mut b = vec!["A".to_string()];
+        for (i, _) in probes.iter().enumerate() {
+            if one_tok[i] {
+                b.push(if line_flagged(published, i) { "0" } else { "1" }.into());
+            }
+        }
+        b.join(" ")
+    };
+    let kept: Vec<String> = probes.iter().enumerate().filter(|(i, _)| one_tok[*i]).map(|(_, p)| p.clone()).collect();
+    for (i, a) in sc.adds.iter().enumerate() {
+        let uri = uris[a.doc].clone();
+        let n_before = ls.publications(&uri).len();
+        let cmd = if a.file { "HarperAddToFileDict" } else { "HarperAddToUserDict" };
+        ls.request_sync("workspace/executeCommand", json!({"command": cmd, "arguments": [a.w, uri]}), &cfg)?;
+        ls.quiesce(&cfg)?;
+        if a.file { files.entry(a.doc).or_default().added.push((a.w.clone(), i + 1)); } else { user.added.push((a.w.clone(), i + 1)); }
+        if ls.publications(&uri).len() == n_before {
+            out.fails.push(("server-no-publication".into(), format!("command #{} ({} `{}`) published nothing for its document", i + 1, cmd, a.w)));
+        }
+        let published = srv_judge(cx, ls, &mut out, sdir, sc, &uri, a.doc, i + 1, &user, &files, &format!("after command #{}", i + 1));
+        // K: the file the handler wrote (its lines are the words_iter order it saved) and the verdicts
+        let dpath = if a.file { cx.file_dict_path(sdir, &uri) } else { sdir.join("dictionary.txt") };
+        let order: Vec<Vec<char>> = std::fs::read_to_string(&dpath).unwrap_or_default().lines().map(cs).collect();
+        for o in &order {
+            chars.extend(o.iter());
+        }
+        chars.insert('\n');
+        if a.file {
+            op_txt.push(format!("addf , {} , {} , {}", a.doc, chars_field(&cs(&a.w)), list_tokens(&order)));
+        } else {
+            op_txt.push(format!("add , {} , {}", chars_field(&cs(&a.w)), list_tokens(&order)));
+        }
+        res_txt.push(fd_tokens(cx.rt, &dpath));
+        if let Some(p) = &published {
+            op_txt.push(format!("lint , {} , {}", a.doc, list_tokens_s(&kept)).trim_end().to_string());
+            res_txt.push(bits(p));
+        }
+        // the other document is checked again (didChange with the same text): a user-dictionary word
+        // is accepted there too, a file-dictionary word is not
+        if sc.docs == 2 {
+            let o = 1 - a.doc;
+            version += 1;
+            ls.notify("textDocument/didChange", did_change(&uris[o], version, &text))?;
+            ls.quiesce(&cfg)?;
+            if let Some(p) = srv_judge(cx, ls, &mut out, sdir, sc, &uris[o], o, i + 1, &user, &files, &format!("after command #{} + didChange of the other document", i + 1)) {
+                op_txt.push(format!("lint , {} , {}", o, list_tokens_s(&kept)).trim_end().to_string());
+                res_txt.push(bits(&p));
+            }
+        }
+    }
+    out.k = Some(build_dio_line(cx.env, salt, &mut chars, &keys, Dialect::American, "absent", &op_txt, &res_txt));
+    Ok(out)
+}
+
+/// phase 2: a new server (same configuration, same files): the words are still accepted
+fn srv_after_restart(cx: &SrvCtx, ls: &mut LsSession, sdir: &Path, sc: &SrvScenario) -> Result<SrvOut, crate::lsclient::LsError> {
+    use crate::lsclient::did_open;
+    let mut out = SrvOut::default();
+    let cfg = srv_cfg(sdir);
+    let text = sc.text();
+    let uris = srv_uris(sdir, sc.docs);
+    let mut user = Ledger::default();
+    let mut files: BTreeMap<usize, Ledger> = BTreeMap::new();
+    for (i, a) in sc.adds.iter().enumerate() {
+        if a.file { files.entry(a.doc).or_default().added.push((a.w.clone(), i + 1)); } else { user.added.push((a.w.clone(), i + 1)); }
+    }
+    for d in 0..sc.docs {
+        ls.notify("textDocument/didOpen", did_open(&uris[d], "plaintext", &text))?;
+        ls.quiesce(&cfg)?;
+        srv_judge(cx, ls, &mut out, sdir, sc, &uris[d], d, sc.adds.len(), &user, &files, "after-restart (new server, didOpen)");
+    }
+    Ok(out)
+}
+
+/// The dictionary file is rewritten by hand (`zqxvkj` → `zqx`, `vkj`) while a document is open: the
+/// document's next update loads {zqx, vkj}; whether `MergedDictionary ==` notices depends on the hash
+/// table order of the freshly loaded dictionary (stream `zqxvkj` vs `zqxvkj` / `vkjzqx`). Up to 12
+/// independent trials; returns the number of trials in which the change went unnoticed.
+fn srv_hand_edit(cx: &SrvCtx, ls: &mut LsSession, root: &Path, out: &mut SrvOut) -> Result<usize, crate::lsclient::LsError> {
+    use crate::lsclient::{did_change, did_open};
+    let mut missed = 0;
+    let text = format!("{}\n{}\n{}\n", template("zqx"), template("vkj"), template("zqxvkj"));
+    for t in 0..12 {
+        let sdir = root.join(format!("edit{}", t));
+        std::fs::create_dir_all(&sdir).unwrap();
+        let cfg = srv_cfg(&sdir);
+        std::fs::write(sdir.join("dictionary.txt"), "zqxvkj\n").unwrap();
+        let uri = crate::lsclient::file_url(&sdir.join("doc0.txt"));
+        std::fs::write(sdir.join("doc0.txt"), &text).unwrap();
+        ls.notify("textDocument/didOpen", did_open(&uri, "plaintext", &text))?;
+        ls.quiesce(&cfg)?;
+        let fresh_old = cx.fresh(&sdir, &uri, &text);
+        std::fs::write(sdir.join("dictionary.txt"), "zqx\nvkj\n").unwrap();
+        ls.notify("textDocument/didChange", did_change(&uri, 2, &text))?;
+        ls.quiesce(&cfg)?;
+        let published = ls.last_publication(&uri).cloned().unwrap_or(json!([]));
+        let fresh = cx.fresh(&sdir, &uri, &text);
+        out.o_cases += 1;
+        if diag_strings(&published) != diag_strings(&fresh) {
+            missed += 1;
+            // the recorded finding is exactly "the document kept the OLD dictionary"; anything else is new
+            let class = if diag_strings(&published) == diag_strings(&fresh_old) { "c07-dict-eq-no-word-boundaries" } else { "server-diagnostics-differ" };
+            out.fails.push((class.into(), format!("user dictionary file `zqxvkj` rewritten by hand to `zqx`, `vkj` while the document is open; after the next didChange the document still reports zqx={} vkj={} and accepts zqxvkj={} (a fresh lint reports neither zqx nor vkj, and reports zqxvkj)", line_flagged(&published, 0), line_flagged(&published, 1), !line_flagged(&published, 2))));
+            if missed >= 2 {
+                break;
+            }
+        } else {
+            out.counts.push("srv:hand-edited-file-noticed".into());
+        }
+    }
+    Ok(missed)
+}
+
+fn gen_srv_scenario(rng: &mut Rng) -> SrvScenario {
+    let docs = rng.range(1, 2);
+    let n = rng.range(1, 4);
+    let mut words: Vec<String> = vec![];
+    let mut adds = vec![];
+    for _ in 0..n {
+        let w = hostile_word(rng, &words);
+        words.push(w.clone());
+        adds.push(SrvAdd { file: rng.chance(1, 3), doc: rng.below(docs), w });
+    }
+    // "random order": the relation (anagram / concatenation / split) may point either way
+    if rng.chance(1, 2) {
+        adds.reverse();
+    }
+    SrvScenario { docs, adds, extra: vec![format!("jqvz{}", (b'a' + rng.below(26) as u8) as char)] }
+}
+
+fn corpus_srv() -> Vec<SrvScenario> {
+    let a = |file: bool, doc: usize, w: &str| SrvAdd { file, doc, w: w.to_string() };
+    vec![
+        SrvScenario { docs: 1, adds: vec![a(false, 0, "xoxo")], extra: vec!["jqvz".into()] },
+        SrvScenario { docs: 2, adds: vec![a(false, 0, "zqxv"), a(false, 1, "ñoño"), a(true, 0, "kuku"), a(true, 1, "zqzq")], extra: vec!["jqvz".into()] },
+        SrvScenario { docs: 2, adds: vec![a(false, 0, "zqab"), a(false, 0, "xvcd"), a(false, 1, "zqabxvcd"), a(false, 0, "abzq")], extra: vec![] },
+        SrvScenario { docs: 2, adds: vec![a(true, 0, "zqabxv"), a(true, 0, "zqa"), a(true, 0, "bxv"), a(true, 1, "zqa")], extra: vec![] },
+        // existing class c07-case-collision through the real command
+        SrvScenario { docs: 1, adds: vec![a(false, 0, "zqxv"), a(false, 0, "Zqxv")], extra: vec![] },
+        SrvScenario { docs: 1, adds: vec![a(false, 0, "couscous"), a(false, 0, "mama"), a(false, 0, "xkkx")], extra: vec![] },
+    ]
+}
+
+/// Server path: every scenario goes through the real `Backend::execute_command` (in-process
+/// `tower_lsp` server, see lsclient.rs). One server runs all command phases (each scenario has its
+/// own dictionary paths — the configuration is pulled by every handler — and its own documents), a
+/// second server all restart phases.
+pub fn server_scenarios(sess: &mut Session, env: &Env, rt: &tokio::runtime::Runtime, root: &Path, scenarios: &[SrvScenario], hand_edit: bool) {
+    use crate::lsclient::LsSession;
+    let cx = SrvCtx { env, rt };
+    let boot_cfg = srv_cfg(&root.join("boot"));
+    let start = |sess: &mut Session| -> Option<LsSession> {
+        match LsSession::start() {
+            Ok(mut ls) => {
+                ls.max_wait = std::time::Duration::from_secs(20);
+                match ls.initialize(&boot_cfg) {
+                    Ok(_) => Some(ls),
+                    Err(e) => { sess.monitor("the in-process language server answered before its deadline", false); sess.count(&format!("srv:initialize failed: {}", e)); None }
+                }
+            }
+            Err(e) => { sess.monitor("the in-process language server answered before its deadline", false); sess.count(&format!("srv:start failed: {}", e)); None }
+        }
+    };
+    let record = |sess: &mut Session, sc: &SrvScenario, o: SrvOut| {
+        for _ in 0..o.o_cases {
+            sess.o();
+        }
+        for c in o.counts {
+            sess.count(&c);
+        }
+        if let Some((op, imp)) = o.k {
+            sess.k(&op, &imp);
+            sess.nontrivial(&op);
+        }
+        for (c, d) in o.fails {
+            sess.fail(&c, d, sc.to_json(), None);
+        }
+    };
+    // phase 1
+    let Some(mut ls) = start(sess) else { return };
+    let mut done: Vec<usize> = vec![];
+    for (i, sc) in scenarios.iter().enumerate() {
+        let sdir = root.join(format!("s{}", i));
+        match srv_commands(&cx, &mut ls, &sdir, sc, i) {
+            Ok(o) => {
+                sess.monitor("the in-process language server answered before its deadline", true);
+                sess.count("srv:scenario (commands)");
+                record(sess, sc, o);
+                done.push(i);
+            }
+            Err(e) => {
+                sess.monitor("the in-process language server answered before its deadline", false);
+                sess.count(&format!("srv:error {}", trunc(&e.to_string(), 80)));
+                match start(sess) { Some(n) => ls = n, None => return }
+            }
+        }
+    }
+    if hand_edit {
+        let mut o = SrvOut::default();
+        match srv_hand_edit(&cx, &mut ls, root, &mut o) {
+            Ok(missed) => sess.add("srv:hand-edited dictionary file went unnoticed (trials)", missed as u64),
+            Err(_) => sess.monitor("the in-process language server answered before its deadline", false),
+        }
+        let sc = SrvScenario { docs: 1, adds: vec![], extra: vec!["zqx".into(), "vkj".into(), "zqxvkj".into()] };
+        let mut j = sc.to_json();
+        j["hand_edit"] = json!({"user_dictionary_before": "zqxvkj\n", "user_dictionary_after": "zqx\nvkj\n", "then": "didChange"});
+        for _ in 0..o.o_cases { sess.o(); }
+        for c in o.counts { sess.count(&c); }
+        for (c, d) in o.fails { sess.fail(&c, d, j.clone(), None); }
+    }
+    let _ = ls.shutdown(&boot_cfg);
+    drop(ls);
+    // phase 2: restart
+    let Some(mut ls) = start(sess) else { return };
+    for i in done {
+        let sc = &scenarios[i];
+        let sdir = root.join(format!("s{}", i));
+        match srv_after_restart(&cx, &mut ls, &sdir, sc) {
+            Ok(o) => { sess.count("srv:scenario (restart)"); record(sess, sc, o); }
+            Err(e) => {
+                sess.monitor("the in-process language server answered before its deadline", false);
+                sess.count(&format!("srv:error {}", trunc(&e.to_string(), 80)));
+                match start(sess) { Some(n) => ls = n, None => return }
+            }
+        }
+    }
+    let _ = ls.shutdown(&boot_cfg);
 }
 
 // ---------------------------------------------------------------------------------------------
@@ -1087,6 +1711,9 @@ pub fn run(ctx: &Ctx) {
     let root = std::env::temp_dir().join(format!("hv-c07-{}-{}", std::process::id(), ctx.seed));
     let _ = std::fs::remove_dir_all(&root);
     std::fs::create_dir_all(&root).unwrap();
+    // HOME / XDG_* for the in-process language server (statistics file, default paths); before any thread exists
+    let root = std::fs::canonicalize(&root).unwrap();
+    crate::lsclient::set_home(&root.join("home"));
     let dict = FstDictionary::curated();
     let all: Vec<Vec<char>> = {
         let mut v: Vec<Vec<char>> = dict.words_iter().map(|w| w.to_vec()).collect();
@@ -1109,6 +1736,17 @@ pub fn run(ctx: &Ctx) {
             merge(&mut sess, o, "replay");
         } else if v["stream"] == "other-lints" {
             other_lints_case(&mut sess, v["w"].as_str().unwrap_or(""), v["text"].as_str().unwrap_or(""));
+        } else if v["stream"] == "server" {
+            if let Some(sc) = SrvScenario::from_json(&v) {
+                server_scenarios(&mut sess, &env, &rt, &root.join("srv"), &[sc], v.get("hand_edit").is_some());
+            }
+        } else if v["stream"] == "fingerprint" {
+            let l = |x: &Value| x.as_array().map(|a| a.iter().filter_map(|w| w.as_str().map(|s| s.to_string())).collect::<Vec<_>>()).unwrap_or_default();
+            for _ in 0..64 {
+                if fingerprint_case(&mut sess, (&l(&v["a"]["user"]), &l(&v["a"]["file"])), (&l(&v["b"]["user"]), &l(&v["b"]["file"])), "replay") {
+                    break;
+                }
+            }
         }
         sess.nontrivial("replay-a");
         sess.nontrivial("replay-b");
@@ -1133,7 +1771,17 @@ pub fn run(ctx: &Ctx) {
         }
         merge(&mut sess, o, "corpus");
     }
-    server_scenarios(&mut sess, &root, &corpus.iter().map(|(_, h)| h.to_json()).collect::<Vec<_>>());
+    // ---- 1b. the same commands through the real language server ---------------------------------------
+    {
+        let mut scs = corpus_srv();
+        let n = if thorough { 150 } else { 34 };
+        for _ in 0..n {
+            scs.push(gen_srv_scenario(&mut rng));
+        }
+        server_scenarios(&mut sess, &env, &rt, &root.join("srv"), &scs, true);
+    }
+    // ---- 1c. the rebuild decision: real MergedDictionary equality ---------------------------------------
+    fingerprint_streams(&mut sess, &mut rng, thorough);
 
     // ---- 2a. exhaustive: load_dict on every small file ----------------------------------------------
     {
@@ -1320,6 +1968,9 @@ pub fn run(ctx: &Ctx) {
     }
     // ---- 5. all other lints are unchanged by an add -----------------------------------------------------
     {
+        // witnesses of the two recorded rules that read the dictionary / the words' metadata
+        other_lints_case(&mut sess, "xkKx", "xkKx Corrects `hone in on` to `home in on`.");
+        other_lints_case(&mut sess, "wqxz", "Each morning, she awakens to find the date unchanged. wqxz At first, confusion and frustration cloud her thoughts, but soon she notices something peculiar.");
         let sents = crate::corpus::sentences();
         let n = if thorough { 1500 } else { 260 };
         for i in 0..n {
@@ -1345,7 +1996,7 @@ pub fn run(ctx: &Ctx) {
     let extra = json!({
         "exhaustive_scope": "load_dict on all files of ≤5 (thorough ≤6) characters over {a A LF CR space} and every byte prefix of all strings of ≤3 characters over {a A LF CR space é}; tokio BufWriter chunking for capacities 1–4 × ≤4 (thorough ≤5) pieces of 0–5 bytes; all histories of ≤4 (thorough ≤5) ops over {add zqxv, add Zqxv, add qxzv, restart, lint} + a final lint in another document; every byte offset (and before-open) of the save of one more add on 9 distinct dictionary files",
         "urls": URLS, "file_dict_names": env.names,
-        "server_path": "TODO(server path): harness/src/c07.rs server_scenarios — the command handler's steps are executed directly",
+        "server_path": "server_scenarios: HarperAddToUserDict / HarperAddToFileDict through the in-process tower_lsp server (lsclient.rs): last publication vs a fresh DocumentState under the dictionaries on disk, other document, restart",
     });
     sess.finish(
         "K: histories of add / addFile / restart / crash@byte / lint (+ JS import / lint / export-restart) run against the real load_dict, save_dict, append_word, MergedDictionary (curated+user+file) and SpellCheck in a temp dir, and against the Lean state machine on one `dio` line each: per op the file contents, what load_dict reloads, and the accept bit of every query word that is one Word token in `We saw _ today.`; the hash-table order of words_iter is handed to the model, which refuses it unless it is a permutation of its own dictionary. Crash = the file the real save_dict wrote, truncated by hand at the byte offset, then re-read by the real load_dict. Also: load_dict on arbitrary small files incl. torn UTF-8 (dload), the BufWriter chunking rule (dchunk), large dictionaries saved by the real save_dict in a child process under strace — sizes of the write syscalls, O_TRUNC, no fsync/rename — (dsave). O (real code only): after `add w` the word is not reported in the same and in another document, at once and at every later lint incl. after restarts; after every op the user dictionary file reloads (real load_dict) to exactly the words added so far (a crash before the open or after the last write may lose only the word being added); a file-dictionary word is accepted in its own document and changes no verdict in the three other documents; JS: imported words are accepted by Linter::lint at once and later, export_words returns them, a new Linter importing the export accepts them; all non-spelling lints (full curated LintGroup) of rule-test sentences containing the word are identical before and after the add, and the only spelling lints that disappear are on the word itself. Words: lower-case nonsense, Capitalised / UPPER / mixed case, case variants of each other, ' and ’ inside, non-ASCII (é ž ß ï ö İ É Ž Ø), words of another dialect (colour …), listed words, and (K only, never judged) words no token can be: trailing space, CR, embedded LF, empty, blank. Non-trivial = distinct K lines of histories, files containing a line break, multi-write saves.",
